@@ -17,6 +17,7 @@ import plumpy
 from plumpy import ports as pports
 from plumpy.process_spec import ProcessSpec
 
+from .. import explore
 from ..explore import digest
 
 ID = 'C15'
@@ -303,7 +304,7 @@ def _work(chunk: List[tuple]) -> Dict[str, Any]:
     for case in chunk:
         out['n'] += 1
         try:
-            vs = check_case(case)
+            vs = explore.guarded_case(list(case), check_case, case)
         except Exception as exc:  # noqa: BLE001
             vs = [{'clause': 'raised', 'features': {'exc': type(exc).__name__, 'kind': case[-1]}, 'detail': repr(exc),
                    'case': list(case)}]
